@@ -132,6 +132,60 @@ theorem search_range_finds_all (fs : FS) (al : List AFile) (hrep : Rep fs al) (h
 
 
 
+/-- **the line-limited search returns the first lines from the begin time on: at least `n` of them when there are that many,
+whole seconds, nothing from later seconds** (live directory, fresh searcher, `n ≥ 1`) -/
+theorem search_lines_ok (fs : FS) (al : List AFile) (hrep : Rep fs al) (hwf : WF al)
+    (hlive : ∀ f ∈ al, f.tail = [] ∧ f.idxTail = []) (b n : Nat) (hn : 1 ≤ n) :
+    ∃ R, (searchLines fs {} b n).2 = some R ∧ specLinesOk ((al.flatMap AFile.items).map stored) b n R = true := by
+  unfold searchLines
+  have hstart : startFiles fs {} b = al.map (·.id) := by simp [startFiles, cacheOk, hrep.listing]
+  rw [hstart]
+  rcases start_decomp fs al hrep hwf b with ⟨hnone, hearly⟩ | ⟨A, f, B, pre, g, post, hal, hgs, hfs, hitems, hearly, hlo, hsorted⟩
+  · rw [hnone]
+    refine ⟨[], rfl, ?_⟩
+    have := fromSec_assemble (al.flatMap AFile.items) [] b hearly (by simp)
+    simp only [List.append_nil, List.map_nil] at this
+    exact specLinesOk_of _ [] [] b n hn this (by simp) (List.prefix_refl _) (Or.inr rfl) (whole_nil n)
+  · rw [hfs]
+    have hfmem : f ∈ al := by rw [hal]; simp
+    have hBmem : ∀ x ∈ B, x ∈ al := by intro x hx; rw [hal]; simp [hx]
+    have hgoodpost : ∀ it ∈ groupsItems (g :: post), GoodItem it := by
+      intro it hit
+      obtain ⟨g', hg', hig⟩ := List.mem_flatMap.mp hit
+      exact hwf.good f hfmem g' (by rw [hgs]; simp [List.mem_cons.mp hg']) it hig
+    have hfrom := fromSec_assemble _ _ b hearly hlo
+    rw [← hitems] at hfrom
+    have hsortedS : ((groupsItems (g :: post) ++ B.flatMap AFile.items).map stored).Pairwise (fun x y => secOf x ≤ secOf y) :=
+      List.Pairwise.map stored (fun x y h => h) hsorted
+    unfold readLines
+    simp only [hrep.logs f hfmem]
+    have hlog : f.log = groupsBytes f.groups := by simp [AFile.log, (hlive f hfmem).1]
+    rw [hlog, linesOneFile_live f.groups pre (g :: post) hgs n 0 0 hgoodpost]
+    obtain ⟨Q1, q1, q2, q3, q4, q5⟩ := absLines_spec n 0 hn ((groupsItems (g :: post)).map stored) [] rfl 0 [] (by simp) (by simpa using whole_nil n)
+    simp only [List.reverse_nil, List.nil_append, List.append_nil] at q1 q3 q4 q5
+    by_cases hc : (absLines n 0 ((groupsItems (g :: post)).map stored) 0 []).cont = true
+    · rw [if_pos hc, q1]
+      obtain ⟨e, _⟩ := q4 hc
+      obtain ⟨Q2, r1, r2, r3, r4⟩ := linesRest_spec fs n hn B (fun x hx => hrep.logs x (hBmem x hx)) (fun x hx => (hlive x (hBmem x hx)).1)
+        (fun x hx it hit => by
+          obtain ⟨g', hg', hig⟩ := List.mem_flatMap.mp hit
+          exact hwf.good x (hBmem x hx) g' hg' it hig) Q1 q3
+      refine ⟨Q1 ++ Q2, r1, ?_⟩
+      apply specLinesOk_of _ _ _ b n hn hfrom hsortedS
+      · rw [e, List.map_append]; exact (List.prefix_append_right_inj _).mpr r2
+      · rcases r4 with h | h
+        · exact Or.inl h
+        · right; rw [e, h, List.map_append]
+      · exact r3
+    · rw [if_neg hc, q1]
+      have hc' : (absLines n 0 ((groupsItems (g :: post)).map stored) 0 []).cont = false := by simpa using hc
+      refine ⟨Q1, rfl, ?_⟩
+      apply specLinesOk_of _ _ _ b n hn hfrom hsortedS
+      · rw [List.map_append]; exact List.IsPrefix.trans q2 (List.prefix_append _ _)
+      · exact Or.inl (q5 hc')
+      · exact q3
+
+
 /-- **Every write history leaves a well-formed directory** (`WInv` is established by `Writer.new` - `new_inv` - and kept by every
 `write` - `write_inv`: any timestamps incl. repeated, older and day-changing seconds, empty batches, any size limit and file
 count), **and a time-range search on it returns exactly the accepted items that retention has not removed, in write order.**
@@ -158,6 +212,34 @@ theorem written_items_are_found (maxSize maxFiles nowMs : Nat) (hist : List (Nat
   obtain ⟨hrep, hwf, hlive⟩ := winv_rep_wf _ _ al _ _ hinv (by omega) (by omega) (by omega)
   refine ⟨k, fun b e res => ?_⟩
   rw [search_range_finds_all _ al hrep hwf hlive b e res, hk, hitems0, List.nil_append]
+
+/-- the same for the line-limited search: for every write history, begin time and limit `n ≥ 1` the search returns a prefix of the
+held items from the begin second on - at least `n` when there are that many, extended to the end of the second in which
+the limit was reached, and never beyond it (`specLinesOk`) -/
+theorem written_items_are_found_by_lines (maxSize maxFiles nowMs : Nat) (hist : List (Nat × List MItem)) (w0 : Writer) (acts : List Act)
+    (hnew : Writer.new {} maxSize maxFiles nowMs = some (w0, acts))
+    (hgood : ∀ p ∈ hist, ∀ it ∈ p.2, GoodItem { it with ts := p.1 })
+    (hts : nowMs / 1000 < 18446744073709551616 ∧ ∀ p ∈ hist, p.1 / 1000 < 18446744073709551616)
+    (hbytes : histBytes hist < 18446744073709551616) (hitems : histItems hist < MAX_ITEM_AMOUNT) :
+    ∃ k, ∀ b n, 1 ≤ n → ∃ R,
+      (searchLines (runWrites w0 (({} : FS).applyAll acts) hist).2.1 {} b n).2 = some R ∧
+      specLinesOk (((runWrites w0 (({} : FS).applyAll acts) hist).2.2.drop k).map stored) b n R = true := by
+  obtain ⟨al0, hinv0, hitems0⟩ := new_inv maxSize maxFiles nowMs w0 acts hnew
+  obtain ⟨al, hinv, k, hk⟩ := run_inv hist w0 _ al0 0 0 hinv0 hgood
+  have hl0 : w0.latest = nowMs / 1000 := by
+    unfold Writer.new at hnew
+    split at hnew
+    · simp at hnew
+    · simp only [Option.some.injEq, Prod.mk.injEq] at hnew
+      rw [← hnew.1]
+  have hlatest : (runWrites w0 (({} : FS).applyAll acts) hist).1.latest ≤ 18446744073709551615 :=
+    run_latest_le hist w0 _ 18446744073709551615 (by rw [hl0]; omega) (fun p hp => by have := hts.2 p hp; omega)
+  obtain ⟨hrep, hwf, hlive⟩ := winv_rep_wf _ _ al _ _ hinv (by omega) (by omega) (by omega)
+  refine ⟨k, fun b n hn => ?_⟩
+  obtain ⟨R, h1, h2⟩ := search_lines_ok _ al hrep hwf hlive b n hn
+  refine ⟨R, h1, ?_⟩
+  rw [hk, hitems0, List.nil_append] at h2
+  exact h2
 
 /-- retention: a roll-over keeps the newest `maxFiles - 1` files (all of them while there are fewer) -/
 theorem retention_keeps_newest (n maxFiles : Nat) (h : 0 < maxFiles) : n - dropCount n maxFiles = min n (maxFiles - 1) := by
